@@ -16,6 +16,9 @@ def main():
     C = scene.CONTRACTS
     chk.unit(FILE, 'acquireGeom', C, 'math', 'opaque')
     chk.unit(FILE, 'releaseGeom', C, 'math', 'opaque')
+    chk.unit(FILE, 'mjv_initGeom', {'mjv_initGeom': scene.INIT_GEOM, 'mju_n2f': C['mju_n2f'], 'f2f': {'inline': True}}, 'math', 'opaque')
+    # addGeomGeoms: which model geoms enter the scene (category mask, clamped group), in index order, never beyond the capacity
+    chk.unit(FILE, 'addGeomGeoms', scene.add_contracts(), 'math', 'opaque', check_arith=False)
     try:
         tu = load_tu(FILE)
     except FrontEndError as e:
@@ -53,9 +56,12 @@ def main():
                     bad.append('%s writes scn->%s' % (name, t.get('name')))
     chk.external('frame/only_releaseGeom_and_reset_write_the_geom_counter', not bad, 'ast-frame-scan', 0.0, detail='; '.join(bad))
     chk.extra_cov['assignments_scanned'] = n_assign
-    chk.assumptions |= {'mjv_initGeom writes only the geom it is given (assumed contract)',
+    chk.assumptions |= {'mjv_initGeom writes only the geom it is given (assumed at call sites; its own body is verified to write only through geom-> and to leave objid / objtype / category / segid alone)',
+                        'addGeomGeoms: setMaterial, islandColor, markselected, makeLabel and the small vector helpers are used by frame only (they write the fields of the geom they are handed); '
+                        'mj_sleepCycle returns a tree of the cycle for a sleeping tree (C18); mesh / SDF geoms reference a mesh (geom_dataid >= 0); model ids in range; float values are opaque',
                         'plugin visualize callbacks and user code respect the same acquire/release discipline',
                         'scene invariant 0 <= ngeom <= maxgeom holds when mjv_updateScene resets ngeom to 0 (maxgeom >= 0)'}
-    chk.out_of_reach += ['"the scene holds exactly the enabled model geoms with their simulated poses" (mjv_addGeoms: 2000 lines of float formatting)',
+    chk.out_of_reach += ['completeness of addGeomGeoms (every shown geom IS added: proved only that nothing else is, in index order) and the pose / size values copied into each scene geom (floats are opaque); '
+                         'the other add*Geoms functions of mjv_addGeoms',
                          'determinism of the scene', 'pairing of acquire/release along every path (only the NULL discipline and the counter frame are proved)']
     return chk.finish()
